@@ -121,6 +121,7 @@ Section Heap.
     set (adj := map _ a) in *.
     assert (Hadj : hall P adj) by (apply hall_map; [reflexivity|eapply hall_hgets; eauto]).
     destruct (sort_desc org_lt adj) as [|top rest] eqn:Es; [discriminate|].
+    destruct (Z.ltb (f_trunc_Z _) 0); [discriminate|].
     match type of H with Ok (hsets _ ?m, _) = _ => set (mk := m) in H end.
     assert (Hmk : hall P mk).
     { subst mk.
